@@ -163,6 +163,15 @@ class _UnwindOps:
     def _is_cont(v):
         return isinstance(v, tuple) and len(v) == 2 and v[0] == "CONT"
 
+    def resolves(self, call, env) -> bool:
+        # a registered exit taken off the stack is one of the scenario's callbacks (the model knows what calling it does),
+        # whatever the origin analysis says the stack may hold
+        if isinstance(call.func, ast.Name):
+            v = env.get(call.func.id)
+            if isinstance(v, str) and v in self.scenario:
+                return False
+        return True
+
     def attr(self, value, name, node, env):
         if value == "SELF" and name == STACK_ATTR:
             return ("CONT", env["@field"])
@@ -254,6 +263,8 @@ class _UnwindOps:
     def awaited(self, v, env):
         if isinstance(v, tuple) and v[:1] == ("AW",):
             return self.scenario[v[1]] == "T"
+        if isinstance(v, tuple) and len(v) == 2 and v[0] == "@coro":
+            return v[1]  # a private coroutine step of the unwinding: what it returned
         return v
 
     def visit(self, node, env, ev):
@@ -369,7 +380,7 @@ def r14_2(ctx, end: str) -> None:
                        "@conts": {0: stack}, "@field": 0, "@trace": ()}
                 label = f"stack={n} outcomes={''.join(outcomes) or '-'} received={'E0' if received else 'none'}"
                 ops = _UnwindOps(scenario)
-                results = Machine(cfg, ops, resolver=make_resolver(ctx, u, ops, skip=("_stitch_context",))).run(env)
+                results = Machine(cfg, ops, resolver=make_resolver(ctx, u, ops, skip=("_stitch_context",), coroutines=True)).run(env)
                 want_trace, want_exc = reference(n, outcomes, received)
                 if not results:
                     ctx.fail("R14.2", u, "__aexit__", f"[{label}] abstract evaluation produced no outcome")
